@@ -34,7 +34,7 @@ ObsOf(o) == [why |-> o.why, c |-> o.c, a |-> SeqRange(o.a), calls |-> o.calls]
 
 NoCfg == [rules |-> {}, mode |-> "default", prot |-> "on", filt |-> TRUE, svc |-> "none",
           client |-> [known |-> FALSE, useOwn |-> FALSE, filt |-> TRUE, svc |-> "inherit"],
-          aaaaOff |-> FALSE, cache |-> FALSE]
+          aaaaOff |-> FALSE, cache |-> FALSE, cust |-> 1]
 
 \* "rep" marks a question this server was asked before (possibly under an
 \* earlier configuration of the same trace section).
